@@ -1,8 +1,156 @@
 package main
 
+import (
+	"bytes"
+	"encoding/json"
+	"fmt"
+	"os"
+	"os/exec"
+	"path/filepath"
+	"regexp"
+	"strings"
+	"time"
+)
+
 // tryReplay: rebuild the solver's counterexample as inputs of the real function and run it (go test -overlay).
 func (c *checkCtx) tryReplay(ns *NameSummary, v *Verdict, model, dir, safe string) string {
 	return ""
 }
 
-func runExtras(c *checkCtx, cov map[string]interface{}) int { return 0 }
+type StandinConf struct {
+	Name    string            `json:"name"`
+	Pkg     string            `json:"pkg"`  // directory relative to the repo where the test is injected
+	File    string            `json:"file"` // file under /verif/standins
+	Run     string            `json:"run"`  // -run regexp
+	Kinds   []string          `json:"kinds,omitempty"` // failure kinds that belong to this property (empty = all)
+	Quick   map[string]string `json:"quick,omitempty"`
+	Thorough map[string]string `json:"thorough,omitempty"`
+	Bound   string            `json:"bound"`
+}
+
+var standinLine = regexp.MustCompile(`^STANDIN (\S+) (.*)$`)
+var standinFail = regexp.MustCompile(`^STANDIN-FAIL kind=(\S+) item=(\S+) (.*)$`)
+
+// runStandin executes one bounded stand-in against the real code through `go test -overlay`.
+func (c *checkCtx) runStandin(sc StandinConf) map[string]interface{} {
+	res := map[string]interface{}{"name": sc.Name, "bound": sc.Bound, "level": "bounded (never counted as proved)"}
+	src := filepath.Join(verifDir, "standins", sc.File)
+	dst := filepath.Join(repoDir, sc.Pkg, "zz_govc_standin_test.go")
+	ov := map[string]map[string]string{"Replace": {dst: src}}
+	data, _ := json.Marshal(ov)
+	ovFile := filepath.Join(scratch(), "overlay-"+sc.Name+".json")
+	os.WriteFile(ovFile, data, 0o644)
+	env := goEnv()
+	env = append(env, fmt.Sprintf("VERIF_SEED=%d", c.seed))
+	extra := sc.Quick
+	if c.tier == "thorough" {
+		extra = sc.Thorough
+	}
+	for k, v := range extra {
+		env = append(env, k+"="+v)
+	}
+	pkg := "./" + sc.Pkg
+	if sc.Pkg == "." || sc.Pkg == "" {
+		pkg = "."
+	}
+	t0 := time.Now()
+	cmd := exec.Command("go", "test", "-overlay", ovFile, "-vet=off", "-count=1", "-timeout", "900s", "-run", sc.Run, "-v", pkg)
+	cmd.Dir = repoDir
+	cmd.Env = env
+	var out bytes.Buffer
+	cmd.Stdout = &out
+	cmd.Stderr = &out
+	err := cmd.Run()
+	res["wall_s"] = time.Since(t0).Seconds()
+	res["cmd"] = strings.Join(cmd.Args, " ")
+	var fails []map[string]string
+	summary := ""
+	for _, l := range strings.Split(out.String(), "\n") {
+		l = strings.TrimSpace(l)
+		if m := standinLine.FindStringSubmatch(l); m != nil {
+			summary = m[2]
+			for _, kv := range strings.Fields(m[2]) {
+				if i := strings.Index(kv, "="); i > 0 {
+					res[kv[:i]] = kv[i+1:]
+				}
+			}
+		}
+		if m := standinFail.FindStringSubmatch(l); m != nil {
+			fails = append(fails, map[string]string{"kind": m[1], "item": m[2], "detail": m[3]})
+		}
+	}
+	res["summary"] = summary
+	if summary == "" {
+		// the stand-in itself did not run to completion: build failure or crash
+		tail := out.String()
+		if len(tail) > 3000 {
+			tail = tail[len(tail)-3000:]
+		}
+		res["error"] = fmt.Sprintf("stand-in did not complete (%v)", err)
+		p := filepath.Join(c.outDir, "standin-"+sc.Name+"-error.txt")
+		os.WriteFile(p, []byte("obligation: standin:"+sc.Name+":did-not-run\n\n"+tail), 0o644)
+		c.violation("standin:"+sc.Name+":did-not-run", p, false)
+		return res
+	}
+	// failures: group by (kind,item); known findings are matched by item
+	kindOK := func(k string) bool {
+		if len(sc.Kinds) == 0 {
+			return true
+		}
+		for _, x := range sc.Kinds {
+			if x == k {
+				return true
+			}
+		}
+		return false
+	}
+	reported := map[string]bool{}
+	nf := 0
+	var knownItems []string
+	for _, f := range fails {
+		if !kindOK(f["kind"]) {
+			continue
+		}
+		key := f["kind"] + ":" + f["item"]
+		if reported[key] {
+			continue
+		}
+		reported[key] = true
+		ob := "standin:" + sc.Name + ":" + f["kind"]
+		if k := matchKnown(c.known, c.id, ob, f["item"]); k != nil {
+			fmt.Printf("KNOWN-FINDING: property=%s %s [%s]\n", c.id, k.What, f["item"])
+			knownItems = append(knownItems, key)
+			continue
+		}
+		nf++
+		if nf > 12 {
+			continue
+		}
+		p := filepath.Join(c.outDir, "standin-"+sc.Name+"-"+strings.NewReplacer("/", "_", "*", "P", ".", "_").Replace(key)+".txt")
+		os.WriteFile(p, []byte(fmt.Sprintf("obligation: %s\nitem: %s\nfailing input (found by the bounded stand-in running the real code):\n%s\n\nre-run: %s (VERIF_SEED=%d)\n", ob, f["item"], f["detail"], res["cmd"], c.seed)), 0o644)
+		c.violation(ob+"["+f["item"]+"]", p, true)
+	}
+	res["failures"] = nf
+	res["known_findings_matched"] = knownItems
+	return res
+}
+
+func runExtras(c *checkCtx, cov map[string]interface{}) int {
+	var bounded []interface{}
+	rc := 0
+	for _, sc := range c.conf.StandinConfs {
+		r := c.runStandin(sc)
+		bounded = append(bounded, r)
+		if n, ok := r["failures"].(int); ok && n > 0 {
+			rc = 1
+		}
+	}
+	if len(bounded) > 0 {
+		cov["bounded"] = bounded
+	}
+	g := runGround(c, cov)
+	if g > rc {
+		rc = g
+	}
+	return rc
+}
